@@ -705,6 +705,19 @@ def gen_tables(repo):
                 rows.append(f"({lstr(k.value)}, {lstr(v.value)})")
         return lean_list(rows)
 
+    src_from_spec = ast.unparse(fs)
+    L.append("/-- the callable token is looked up (lower-cased) among the classmethods of GeneralCallables / MapCallables -/")
+    ci = ("name.lower(): name" in src_from_spec and "isinstance(attr, classmethod)" in src_from_spec
+          and "getattr(cls, callable_names[cond_call_str])" in src_from_spec)
+    L.append(f"def callableFromCtorTables : Bool := {'true' if ci else 'false'}")
+    L.append("/-- the pre-processor token must be a key of PRE_PROC_LOOKUP -/")
+    L.append(f"def preProcStrict : Bool := {'true' if 'PRE_PROC_LOOKUP[pre_proc_str]' in src_from_spec else 'false'}")
+    L.append("/-- a non-string specification key is rejected before `.split` -/")
+    L.append(f"def condKeyStrGuard : Bool := {'true' if 'if not isinstance(spec_key, str):' in src_from_spec else 'false'}")
+    L.append("/-- data-path sniffing works on copies of list / mapping arguments -/")
+    a_ok = "spec_val = dict(spec_val)" in src_from_spec and "items = list(spec_val)" in src_from_spec \
+        and "spec_val[idx] =" not in src_from_spec
+    L.append(f"def condArgsCopied : Bool := {'true' if a_ok else 'false'}")
     L.append("def binaryOps : List (String × String) := " + str_table("BINARY_OPS", "name"))
     L.append("def conditionDatumTypes : List (String × String) := " + str_table("CONDITION_DATUM_TYPES", "name"))
     L.append("def callableLookup : List (String × String) := " + str_table("CALLABLE_LOOKUP", "str"))
@@ -843,8 +856,30 @@ def gen_tables(repo):
                     rows.append(f"({lstr(n.name)}, {lstr(kind)}, {lstr(c.args[0].attr)})")
     L.append("/-- modifier methods of DataPath: (method, kind, enum member) -/")
     L.append("def pathModifiers : List (String × String × String) := " + lean_list(rows))
+    # DataPath.from_spec: suffix tokens are checked against the enum member names before getattr
+    whitelist = False
+    for n in ast.walk(fsp):
+        if isinstance(n, ast.If):
+            src_t = ast.unparse(n.test)
+            if "DataPathDatumType.__members__" in src_t and "DataPathMultiType.__members__" in src_t \
+                    and ".upper() not in" in src_t and any(isinstance(b, ast.Raise) for b in n.body):
+                whitelist = True
+    L.append("/-- `DataPath.from_spec` checks a suffix token against the DATUM_TYPE / MULTI_TYPE member names before calling it -/")
+    L.append(f"def pathSuffixWhitelist : Bool := {'true' if whitelist else 'false'}")
+    # DataPath.from_spec: an empty mapping is refused; escaped keys give a fresh mapping
+    src_fs = ast.unparse(fsp)
+    L.append(f"def pathSpecRefusesEmpty : Bool := {'true' if 'not isinstance(spec, dict) or not spec' in src_fs else 'false'}")
+    L.append("/-- DataPath.from_spec does not write to the mapping it is given (no pop / item assignment on `spec`) -/")
+    L.append(f"def pathSpecPure : Bool := {'false' if ('spec.pop(' in src_fs or 'spec[' in src_fs) else 'true'}")
     cv = find_class(dtree, "ContainerValue")
     cfs = find_method(cv, "from_spec")
+    src_cfs = ast.unparse(cfs)
+    first_pop = src_cfs.find("spec.pop(")
+    copy_at = src_cfs.find("spec = dict(spec)")
+    L.append("/-- ContainerValue.from_spec copies the mapping before popping its items -/")
+    L.append(f"def partSpecCopied : Bool := {'true' if 0 <= copy_at < first_pop else 'false'}")
+    L.append("/-- the shorthand-key scan of ContainerValue.from_spec guards `startswith` with `isinstance(i, str)` -/")
+    L.append(f"def partSpecStrGuard : Bool := {'true' if 'isinstance(i, str) and i.startswith' in src_cfs and 'if i.startswith' not in src_cfs else 'false'}")
     d = walk_assign(cfs, "CLS_LOOKUP")
     L.append("def clsLookup : List (String × String) := " + lean_list(
         f"({lstr(k.value)}, {lstr(v.id)})" for k, v in zip(d.keys, d.values)))
@@ -858,6 +893,11 @@ def gen_tables(repo):
     tr = tries_in(rt)
     if len(tr) != 1 or len(tr[0].handlers) != 1:
         raise ExtractError("Rule.test: expected one try block")
+    rfs = ast.unparse(find_method(rule, "from_spec"))
+    L.append("/-- Rule.from_spec works on copies of `doc` and `cast` -/")
+    L.append(f"def ruleSpecCopied : Bool := {'true' if ('copy.deepcopy(spec.get(' in rfs and 'cast = dict(cast)' in rfs) else 'false'}")
+    L.append("/-- Rule.from_spec rejects mis-shaped `cast` / `doc` with MalformedRuleSpec -/")
+    L.append(f"def ruleSpecShapeChecks : Bool := {'true' if ('if not isinstance(cast, dict):' in rfs and 'isinstance(i, str) for i in doc[doc_key]' in rfs) else 'false'}")
     L.append("/-- `except` clause around the cast call in `Rule.test` -/")
     L.append("def catchesCast : List String := " + lean_list(lstr(x) for x in exc_names(tr[0].handlers[0].type, "Rule.test")))
     L.append("")
